@@ -63,7 +63,8 @@ LEAVES = {
     "float": (lambda: Float(), [["float", "0.0"], ["float", "2.5"]], True),
     "boolean": (lambda: Boolean(), [False, True], True),
 }
-WRAPS = ["bare", "bare", "optional", "array", "deque", "set", "map", "tuple2", "array-of-array", "map-of-array"]
+WRAPS = ["bare", "bare", "optional", "array", "deque", "set", "map", "tuple2", "array-of-array", "map-of-array",
+         "anyof-then-int", "array-of-optional", "map-of-optional"]
 UNHASHABLE_IN_SET = ()
 
 
@@ -102,6 +103,12 @@ def build_field(leaf, wrap):
         return Array[Array[mk()]]
     if wrap == "map-of-array":
         return Map[String(), Array[mk()]]
+    if wrap == "anyof-then-int":          # the value belongs to a LATER option than the leaf
+        return AnyOf[mk(), Integer()]
+    if wrap == "array-of-optional":
+        return Array[AnyOf[mk(), NoneField()]]
+    if wrap == "map-of-optional":
+        return Map[String(), AnyOf[mk(), NoneField()]]
     raise ValueError(wrap)
 
 
@@ -125,6 +132,12 @@ def build_value(leaf, wrap, picks):
         return [list(vals), []]
     if wrap == "map-of-array":
         return {"a": list(vals), "b": []}
+    if wrap == "anyof-then-int":
+        return [0, 3, vals[0]][picks[0] % 3]
+    if wrap == "array-of-optional":
+        return [None] + list(vals) + [None]
+    if wrap == "map-of-optional":
+        return {"n": None, **{f"k{i}": v for i, v in enumerate(vals)}}
     raise ValueError(wrap)
 
 
@@ -137,11 +150,21 @@ def gen_cases(rng, n):
         for fi in range(nf):
             leaf = rng.choice(leaves)
             wrap = rng.choice(WRAPS)
-            picks = [rng.randrange(8) for _ in range(rng.choice([0, 1, 2, 3]) if wrap not in ("bare", "optional", "tuple2") else 1)]
+            picks = [rng.randrange(8) for _ in range(rng.choice([0, 1, 2, 3]) if wrap not in ("bare", "optional", "tuple2", "anyof-then-int") else 1)]
             fields.append({"name": f"f{fi}", "leaf": leaf, "wrap": wrap, "picks": picks,
                            "unset": wrap == "optional" and rng.random() < 0.3})
         cases.append({"suite": "extras", "fields": fields, "ignore_none": rng.random() < 0.2,
                       "nested": rng.random() < 0.25})
+    # compact single-field wrappers (one required field, no additional properties), the flag declared by the class
+    # itself or only INHERITED from a base, compact serialization and deserialization both on
+    for ci in range(max(4, n // 10)):
+        leaf = rng.choice(leaves)
+        # (a wrapper around a Map is left out: its compact form is a JSON object, which compact deserialization
+        #  cannot tell from the regular form - ambiguous by design)
+        wrap = rng.choice(["bare", "array", "tuple2", "array-of-array"])
+        cases.append({"suite": "extras", "fields": [{"name": "f0", "leaf": leaf, "wrap": wrap, "picks": [rng.randrange(8), rng.randrange(8)][:1 if wrap in ("bare", "tuple2") else 2],
+                                                       "unset": False}],
+                      "ignore_none": False, "nested": False, "compact": rng.choice(["own", "inherited", "inherited-hook"])})
     return cases
 
 
@@ -189,18 +212,39 @@ def run_impl(case):
         body["_required"] = [f["name"] for f in case["fields"] if f["wrap"] != "optional"]
         if case.get("ignore_none"):
             body["_ignore_none"] = True
-        cls = type("X", (Structure,), body)
+        if case.get("compact"):
+            body["_additional_properties"] = False
+            cls = type("X", (Structure,), body)
+            if case["compact"].startswith("inherited"):
+                sub_body = {}
+                if case["compact"] == "inherited-hook":
+                    sub_body["__validate__"] = lambda self: None
+                cls = type("XSub", (cls,), sub_body)
+        else:
+            cls = type("X", (Structure,), body)
         if case.get("nested"):
             outer = type("Outer", (Structure,), {"inner": cls, "tag": String(), "_required": ["inner"]})
     except Exception as e:   # e.g. a Set of an unhashable kind: the definition itself is refused
         return {"skip": f"definition: {type(e).__name__}: {e}"[:200]}
+    if case.get("compact"):
+        Structure.set_compact_serialization_default(True)
+        Structure.set_compact_deserialization_default(True)
+        try:
+            return _run_built(case, cls, kw, exact, None)
+        finally:
+            Structure.set_compact_serialization_default(False)
+            Structure.set_compact_deserialization_default(False)
+    return _run_built(case, cls, kw, exact, outer if case.get("nested") else None)
+
+
+def _run_built(case, cls, kw, exact, outer):
     try:
         x = cls(**kw)
-        if case.get("nested"):
+        if outer is not None:
             cls, x = outer, outer(inner=x, tag="")
     except Exception as e:
         return {"skip": f"construction: {type(e).__name__}: {e}"[:200]}
-    res = {"exact": exact, "kinds": [f"{f['wrap']}>{f['leaf']}" for f in case["fields"]]}
+    res = {"exact": exact, "kinds": [("compact-" + case["compact"] + ":" if case.get("compact") else "") + f"{f['wrap']}>{f['leaf']}" for f in case["fields"]]}
     try:
         doc = Serializer(x).serialize()
         res["doc"] = repr(doc)[:300]
